@@ -183,6 +183,25 @@ func (ch *chain) addTxs(r *rand.Rand, k int) error {
 	return nil
 }
 
+// addBigTx puts one transfer with a payload of 70-150 kB into the pool: the block that takes it has two or three
+// parts of the real part size (every non-final part is exactly types.BlockPartSizeBytes long).
+func (ch *chain) addBigTx(r *rand.Rand) error {
+	key := ch.senders[r.Intn(len(ch.senders))]
+	from := crypto.PubkeyToAddress(key.PublicKey)
+	nonce := ch.sentNonce[from]
+	payload := make([]byte, 70000+r.Intn(50000)) // (the pool refuses transactions over 128 kB)
+	gas := uint64(50000 + len(payload)*20)
+	tx, err := types.SignTx(types.HomesteadSigner{}, types.NewTransaction(nonce, common.BytesToAddress([]byte{0xbe, 0xef, 0x01}), big.NewInt(1), gas, big.NewInt(1), payload), key)
+	if err != nil {
+		return err
+	}
+	if err := ch.pool.AddLocal(tx); err != nil {
+		return fmt.Errorf("AddLocal(big): %v", err)
+	}
+	ch.sentNonce[from] = nonce + 1
+	return nil
+}
+
 func (ch *chain) signVote(addr common.Address, idx int, height uint64, round uint32, typ kproto.SignedMsgType, bid types.BlockID, ts time.Time) (*types.Vote, error) {
 	pv := ch.pvByAdr[addr]
 	if pv == nil {
